@@ -695,7 +695,13 @@ def stream_robust(ctx: Ctx) -> None:
                     lines += zlib.decompress(strip_comments_py(d or b"")).decode("utf-8").splitlines()
                 except Exception:
                     pass
-            sig = SIG_PRIO_LAST if excs[0] == "IndexError" and any(prio_is_last(l) for l in lines) else "update-raises:" + excs[0]
+            sig = "update-raises:" + excs[0]
+            if excs[0] == "IndexError" and any(prio_is_last(l) for l in lines):
+                # the recorded defect only if the priority-last lines are what raises: without them update must return
+                rest = "\n".join(l for l in lines if not prio_is_last(l))
+                _, _, excs2, _ = run_session([(URL, header + zlib.compress(rest.encode("utf-8")))], [])
+                if not excs2:
+                    sig = SIG_PRIO_LAST
             ctx.fail(sig, label, f"SphinxInventory.update raised {excs[0]} (the run aborts)")
         # direct oracle 1b: bytes that are unusable as a whole are reported (one error per failed update) and skipped
         if len(updates) == 1 and not excs:
@@ -802,8 +808,15 @@ def replay(ctx: Ctx, obj) -> int:
         print("request:", req)
         print("impl   :", out)
         print("model  :", _model(ctx, req))
-        print("oracle :", f"_parseInventory raised {exc}: SphinxInventory.update aborts on this payload" if exc else "property holds on this input")
-        bad = 1 if exc else 0
+        # the same payload as a complete remote inventory through the real SphinxInventory.update
+        data = b"# Sphinx inventory version 2\n# Project: p\n# Version: 1\n# zlib\n" + zlib.compress(inp["payload"].encode("utf-8", "surrogatepass"))
+        good = [l.split(" ")[0] for l in inp["payload"].splitlines() if not prio_is_last(l) and impl_line(l).startswith("ok ")]
+        sreq, simpl, excs, inv = run_session([(inp["base"] + "/objects.inv", data)], good)
+        print("update :", simpl[:600])
+        lost = [n for n in good if inv.getLink(n) is None]
+        print("oracle :", (f"SphinxInventory.update raised {excs[0]} (the run aborts); well-formed lines lost: {lost}") if excs
+              else "property holds on this input: update returned" + (f", {len(good)} well-formed line(s) resolve" if good and not lost else ""))
+        bad = 1 if excs else 0
     elif "session" in inp:
         ups = [(u, None if d is None else bytes.fromhex(d)) for u, d in inp["session"]]
         sreq, simpl, excs, inv = run_session(ups, inp.get("queries", [l.split(" ")[0] for l in GOOD_LINES]))
